@@ -44,13 +44,16 @@ def _chunkings(n):
 
 def _stream(rows, cuts, cls):
     from bionumpy.streams import NpDataclassStream
-    from bionumpy.datatypes import Interval, BedGraph
+    from bionumpy.datatypes import Interval, BedGraph, Bed6
     ch = [r[0] for r in rows]
     st = np.array([r[1] for r in rows], dtype=int)
     en = np.array([r[2] for r in rows], dtype=int)
     if cls == "interval":
         t = Interval(ch, st, en)
         dc = Interval
+    elif cls == "bed6":
+        t = Bed6(ch, st, en, ["."] * len(rows), [0] * len(rows), ["+-"[k % 2] for k in range(len(rows))])
+        dc = Bed6
     else:
         t = BedGraph(ch, st, en, np.ones(len(rows)))
         dc = BedGraph
@@ -116,6 +119,18 @@ def _p_fields(g, names, mk):
     return by
 
 
+def _p_fields_stranded(g, names, mk):
+    """stranded intervals over a stream: every entry still reaches its contig, with its own strand"""
+    import bionumpy as bnp
+    gi = g.get_intervals(mk("bed6"), stranded=True)
+    ch, st, sd = bnp.compute((gi.chromosome, gi.start, gi.strand))
+    by = [[] for _ in names]
+    k = 0
+    for c, s, d in zip(ch.tolist(), np.asarray(st).tolist(), sd.to_string()):
+        by[names.index(c)].append(int(s) if d in "+-" else -1)
+    return by
+
+
 def _p_pileup_sum(g, names, mk):
     """reduction: only the total is observable; report it as a pseudo-slot check"""
     import bionumpy as bnp
@@ -128,6 +143,7 @@ PIPELINES = {
     "track.get_data": ("iter_chromosomes", "exact", _p_track_get_data),
     "pileup.get_data": ("iter_chromosomes", "exact", _p_pileup_get_data),
     "fields": ("iter_chromosomes", "exhaust", _p_fields),
+    "fields.stranded": ("iter_chromosomes", "exhaust", _p_fields_stranded),
     "pileup.sum": ("iter_chromosomes", "exhaust", _p_pileup_sum),
 }
 
@@ -223,12 +239,12 @@ def check_vector(v):
     compatible = v["compatible"]
     want_slots = v["slots"]
     n_valid = sum(1 for r in rows if r[0] in genome)
-    key = json.dumps([genome, groups, v["consumer"], v["mech"]])
+    key = json.dumps([genome, groups, v["consumer"], v["mech"], bool(v.get("derived"))])
     if (not compatible) or "empty" in want_slots or ignored in groups:
         nt.append(key)
 
     def judge(pipe, cuts, o):
-        tags = {"pipeline": pipe, "mech": v["mech"], "consumer": v["consumer"], "compatible": compatible,
+        tags = {"pipeline": pipe, "mech": v["mech"], "consumer": v["consumer"], "compatible": compatible, "derived": bool(v.get("derived")),
                 "underscore_included": bool(v.get("underscore_included"))}
         case = {"genome": genome, "groups": groups, "cuts": cuts, "pipeline": pipe}
         if o[0] == "err":
@@ -259,6 +275,10 @@ def check_vector(v):
             g = bnp.Genome.from_dict(sizes, filter_function=ignore_underscores)
         else:
             g = bnp.Genome.from_dict(sizes)
+        if v.get("derived"):
+            # Derive: a second genome with more ignored names is made from this one and dropped; this one keeps its own
+            g.with_ignored_added([genome[-1], "x"])
+            g.get_genome_context().with_ignored_added([genome[-1], "x"])
         for pipe, (_m, cons, fn) in PIPELINES.items():
             if cons != v["consumer"]:
                 continue
@@ -304,8 +324,8 @@ def run(ctx):
                 continue
             res = ctx.tlc("MC_C12", tag="MC_C12_%s_%s" % (gname, mech), spec="Spec",
                           constants={"Genome": "<- " + gname, "Unknown": "x", "Ignored": ign, "AsBuilt": False, "Mechanism": mech},
-                          invariants=invs, coverage=True)
-            ctx.require_actions(res, "MC_C12", ["Prime", "Step", "Finish"] if mech == "iter_chromosomes" else ["SStep"])
+                          invariants=invs, properties=["DeriveFrame"], coverage=True)
+            ctx.require_actions(res, "MC_C12", ["Prime", "Step", "Finish", "Derive"] if mech == "iter_chromosomes" else ["SStep"])
             for v in res.vectors:
                 v["ignored"] = ign if mech == "iter_chromosomes" else ""
                 v["underscore_included"] = gname == "G3u"
